@@ -377,6 +377,10 @@ func runC04(c *Ctx) {
 	// ---- challenge ----
 	for i := 0; i < N; i++ {
 		nOrig := 1 + r.IntN(3)
+		if i%5 == 4 {
+			// long origin lists, around every power of two a bounded splitter could have picked as its limit (round 6)
+			nOrig = []int{4, 7, 8, 9, 15, 16, 17, 18, 31, 32, 33, 63, 64, 65, 100, 127, 128, 129, 255, 256, 257, 1000}[(i/5)%22]
+		}
 		var os []string
 		var osb [][]byte
 		for k := 0; k < nOrig; k++ {
